@@ -430,6 +430,16 @@ def run_config(ctx, rows_m, masks, T, k, p, C, tag, compare_model=True, raw_logi
                     if near:
                         ctx.count("shift check tie-skipped")
                         continue
+                    # float32 stream: adding the constant rounds the logits; two feasible logits around the top-k cut that
+                    # differ by less than that rounding become a tie (or swap), which the clause does not speak about
+                    # ("ties aside"; the theorem is over exact arithmetic) — skipped and counted, like the top-p margin
+                    fl = sorted((float(v) for v, keep in zip(logits[b].tolist(), mk) if keep), reverse=True)
+                    if 0 < k < len(fl):
+                        gap = abs(fl[k - 1] - fl[k]) / float(temp)
+                        ulp = (max(abs(v) for v in fl) + abs(float(shift))) * 2.0 ** -23
+                        if gap <= 8 * ulp:
+                            ctx.count("shift check tie-skipped (top-k cut within float32 rounding of the shift)")
+                            continue
                     wit = {"shift": shift, "p": probs[b].tolist(), "p_shifted": lp2[b].exp().tolist(), **wit}
                 ctx.violation("spec-" + key, "property clause fails on the real code: " + txt,
                               {"spec_reply": rep, "real_probs": probs[b].tolist(), "real_support": rl.mask_str(kept[b]),
